@@ -266,6 +266,9 @@ def parse_kani_output(out):
         for m in re.finditer(r"Failed Checks: (.*)$", txt, re.M):
             if not any(fc[0] == m.group(1).strip() for fc in r.failed_checks):
                 r.failed_checks.append((m.group(1).strip(), ""))
+        if any("not currently supported by Kani" in c[0] or "unsupported construct" in c[0].lower() for c in r.failed_checks):
+            # an unsupported construct is reachable: tool limit, nothing was refuted
+            r.status = "undecided"
         if re.search(r"unwinding assertion", txt):
             r.unwinding_failure = True
         m = re.search(r"Verification Time: ([\d.]+)s", txt)
